@@ -804,12 +804,15 @@ pub fn process<I: BufRead, O: Write>(
                             }
                         }
                         _ => {
-                            return Err(Error::Syntax {
-                                filename: filename.clone(),
-                                included_in: included_in.clone(),
-                                line,
-                                msg: "Unrecognised preprocessor directive".to_string(),
-                            });
+                            // Like #error, a directive in a skipped region has no effect
+                            if state == State::Active {
+                                return Err(Error::Syntax {
+                                    filename: filename.clone(),
+                                    included_in: included_in.clone(),
+                                    line,
+                                    msg: "Unrecognised preprocessor directive".to_string(),
+                                });
+                            }
                         }
                     }
                 } else if state == State::Active {
